@@ -288,8 +288,45 @@ func teMethodSets(g *genCtx) string {
 	}
 	sort.Strings(sat)
 	g.facts["tokenExchangeRequest_satisfies"] = sat
+	// deep5: the WHOLE method set of the request type and EVERY interface of pkg/op it satisfies - not only the ones somebody asserts
+	// today: a new optional interface on the request object (a `GetActor()` that hands the claims an actor of the request's own, say)
+	// changes these two facts whatever the name of the interface or of the call site is
+	var names []string
+	for m := range methods {
+		names = append(names, m)
+	}
+	sort.Strings(names)
+	var impl, notUnderstood []string
+	for name, it := range ifaces {
+		if it.Methods == nil || len(it.Methods.List) == 0 {
+			continue
+		}
+		req, ok := need(name, map[string]bool{})
+		if !ok {
+			notUnderstood = append(notUnderstood, name)
+			continue
+		}
+		all := len(req) > 0
+		for m, sig := range req {
+			if methods[m] != sig {
+				all = false
+			}
+		}
+		if all {
+			impl = append(impl, name)
+		}
+	}
+	sort.Strings(impl)
+	sort.Strings(notUnderstood)
+	g.facts["tokenExchangeRequest_methods"] = names
+	g.facts["tokenExchangeRequest_implements"] = impl
+	more := "\n/-- deep5: the method set of `*op.tokenExchangeRequest` (every `func (r *tokenExchangeRequest) …` of pkg/op, sorted) -/\n" +
+		"def tokenExchangeRequest_methods : List String := " + leanStrList(names) + "\n" +
+		"\n/-- deep5: EVERY interface type declared in pkg/op whose methods (names and signatures, embedded interfaces of the package expanded)\n" +
+		"    `*op.tokenExchangeRequest` has, sorted.  Not judged (they embed a type that is not an interface of pkg/op): " + strings.Join(notUnderstood, ", ") + " -/\n" +
+		"def tokenExchangeRequest_implements : List String := " + leanStrList(impl) + "\n"
 	return "/-- the case types of `needsRefreshToken`'s type switch (pkg/op/token.go) that `*op.tokenExchangeRequest` satisfies: its method set\n" +
 		"    (names and signatures) contains the interface's.  Case types of the switch, in source order: " + strings.Join(cases, ", ") +
 		";\n    also checked: TokenActorRequest (type assertion in `CreateJWT` / `CreateIDToken`) -/\n" +
-		"def tokenExchangeRequest_satisfies : List String := " + leanStrList(sat) + "\n"
+		"def tokenExchangeRequest_satisfies : List String := " + leanStrList(sat) + "\n" + more
 }
